@@ -43,6 +43,7 @@ type step struct {
 	Ms      int               `json:"ms"`
 	Group   string            `json:"group"`
 	ID      string            `json:"id"`
+	Reqs    []step            `json:"reqs"` // burst: requests sent at once, not awaited before the kill
 }
 
 // stepObs is the envelope of every step observation; all keys are always present.
